@@ -475,6 +475,10 @@ def run(ctx):
         for (bb_, si_, v_, r_) in result_variants(pp, M.Explore(pp)):
             if v_ == "Ok" and const_of(Tq.operand(r_["ops"][0])) is None:
                 cnt_rets.append(bb_)
+        # a count that is not poll's own can only be 0 ('nothing ready, time is up'): any other constant claims readiness that was not reported
+        const_rets = [(bb_, const_of(Tq.operand(r_["ops"][0]))) for (bb_, si_, v_, r_) in result_variants(pp, M.Explore(pp)) if v_ == "Ok" and const_of(Tq.operand(r_["ops"][0])) is not None]
+        for bb_, c_ in const_rets:
+            ctx.ob("R04.4", "constant-count-is-zero", c_ == 0, pp.loc(bb_), "posix::poll returns the constant %s as the number of ready descriptors (only 0, after the deadline, is truthful)" % c_)
         okr = bool(cnt_rets) and bool(nzc) and bool(ov_f) and all(dominated_by_edges(pp, b_, nzc + ov_f) for b_ in cnt_rets)
         ctx.ob("R04.4", "count-returned-iff-ready-or-timeout-fully-armed", okr or (pev.get("count", False) and pev.get("rearm", False)), pp.loc(cnt_rets[0] if cnt_rets else 0),
                "Ok(cnt) is returned only when cnt != 0, or when the armed timeout was the whole remaining time (overflow == false): returning 0 after a clipped "
